@@ -26,6 +26,8 @@ func c15(c *eng.Ctx, r *eng.Report) {
 		"R15.7 before a share has been verified, the only things about the message that decide whether it will be are the reviewed ones (it is a verify message, the sender's key is known, its data hash is this block's): no other branch on message content — in particular none on state keyed by the unauthenticated signer id — stands between a share and its verification; " +
 		"R15.8 the key a member's shares are verified under is bound once: the stored share public key is written only on the not-yet-stored edge (first announcement wins; an announcement is only self-signed, so a later one naming the same member proves nothing), and only AddMemberSignPk writes it. " +
 		"R15.10 a panic raised while handling one message ends that message, not the party: the deferred recover() of baseParty.Update neither sends on the party's Err channel nor calls anything that does (ID.Serialize panics on an over-long signer id, which the wire decoder lets through); " +
+		"R15.12 the key a share is verified under is the sender's key in this block's group: every key GetMemberSignPubKey(group, member) returns comes from GetMemberSignPK(member) on the record GetJoinedGroupInfo(group) returned — not from a store keyed by the member alone (a miner sits in several groups with a different share key in each); " +
+		"R15.13 a verify message is identified by the digest of its whole wire form: the Id that UnMarshalConsensusVerifyMessage assigns — the key of CanAccept, futureMessages and processed — is computed by a hash over the received bytes, not from fields the sender fills in (a forged piece naming another member would otherwise occupy that member's id and the genuine share be dropped as a duplicate); " +
 		"R15.11 the share sets recover as soon as the threshold is reached: the comparison of the number of collected shares with the threshold in both generators is `count >= threshold` (not `>`): with exactly threshold valid shares the block must finalise; " +
 		"R15.9 garbage from one member cannot end the round: round1.Update returns a non-nil *Error — which terminates the signing party for everyone — only on conditions that do not depend on the content of the message (it is not a verify message; the block is already on chain); a share that fails any check is dropped with `return nil`. " +
 		"Not decided: recovery correctness (C13), network-level behaviour."
@@ -41,6 +43,8 @@ func c15(c *eng.Ctx, r *eng.Report) {
 	c15NoFatalOnContent(c, r)
 	c15RecoverDoesNotKill(c, r)
 	c15ThresholdCompare(c, r)
+	c15KeyOfThisGroup(c, r)
+	c15MessageIdIsDigest(c, r)
 }
 
 // c15Parking: a verify message that arrives before its party exists is parked
@@ -617,4 +621,126 @@ func c15ThresholdCompare(c *eng.Ctx, r *eng.Report) {
 		}
 	}
 	r.Check(n >= 1, rule, "threshold-compare:sites", "", fmt.Sprintf("%d comparisons of the share count with the threshold", n), "no comparison of len(shares) with the threshold found in the share generators")
+}
+
+// c15KeyOfThisGroup: see R15.12.
+func c15KeyOfThisGroup(c *eng.Ctx, r *eng.Report) {
+	const rule = "R15.12"
+	r.Min(rule, 1)
+	fn := c.Func("consensus/logical/group_create", "(*groupCreateProcessor).GetMemberSignPubKey")
+	if !r.Anchor(fn != nil && len(fn.Params) == 3, rule, "(*groupCreateProcessor).GetMemberSignPubKey") {
+		return
+	}
+	group, member := fn.Params[1], fn.Params[2]
+	bad := ""
+	n := 0
+	var check func(v ssa.Value, d int, seen map[ssa.Value]bool)
+	check = func(v ssa.Value, d int, seen map[ssa.Value]bool) {
+		if v == nil || seen[v] || d > 10 {
+			return
+		}
+		seen[v] = true
+		switch x := v.(type) {
+		case *ssa.Const:
+			return // the zero key
+		case *ssa.Phi:
+			for _, e := range x.Edges {
+				check(e, d+1, seen)
+			}
+			return
+		case *ssa.UnOp:
+			if x.Op == token.MUL {
+				if rl := eng.ResolveLocal(x); rl != ssa.Value(x) {
+					check(rl, d+1, seen)
+					return
+				}
+				if al, ok := x.X.(*ssa.Alloc); ok {
+					// named result: every store into it
+					for _, ref := range *al.Referrers() {
+						if st, isSt := ref.(*ssa.Store); isSt && st.Addr == ssa.Value(al) {
+							check(st.Val, d+1, seen)
+						}
+					}
+					return
+				}
+			}
+		case *ssa.Extract:
+			if call, ok := x.Tuple.(*ssa.Call); ok && x.Index == 0 && strings.HasSuffix(eng.CallName(&call.Call), ".GetMemberSignPK") {
+				n++
+				args := call.Call.Args
+				okMember := len(args) >= 2 && eng.ResolveLocal(args[len(args)-1]) == ssa.Value(member)
+				recv := call.Call.Value
+				if !call.Call.IsInvoke() && len(args) > 0 {
+					recv = args[0]
+				}
+				okGroup := false
+				if rc, isC := eng.ResolveLocal(recv).(*ssa.Call); isC && strings.HasSuffix(eng.CallName(&rc.Call), ".GetJoinedGroupInfo") {
+					a := rc.Call.Args
+					okGroup = len(a) >= 1 && eng.ResolveLocal(a[len(a)-1]) == ssa.Value(group)
+				}
+				if !okMember || !okGroup {
+					bad = "GetMemberSignPK at " + c.Pos(call.Pos()) + " is not member-of-this-group"
+				}
+				return
+			}
+		}
+		bad = eng.Desc(v)
+		if in, ok := v.(ssa.Instruction); ok && in.Pos().IsValid() {
+			bad += " at " + c.Pos(in.Pos())
+		}
+	}
+	for _, re := range eng.Returns(fn) {
+		check(re.Incoming(0), 0, map[ssa.Value]bool{})
+	}
+	r.Check(bad == "" && n >= 1, rule, "share-key:of-this-group", c.Pos(fn.Pos()), "every returned key is GetJoinedGroupInfo(group).GetMemberSignPK(member)", "GetMemberSignPubKey can return a key that does not come from this group's record ("+bad+"): a miner that sits in two groups has a different share key in each, so a piece it signed for the other group is checked under the wrong key — accepted into this block's recovery set (the recovered signature then fails under the group key) while its genuine share is refused")
+}
+
+// c15MessageIdIsDigest: see R15.13.
+func c15MessageIdIsDigest(c *eng.Ctx, r *eng.Report) {
+	const rule = "R15.13"
+	r.Min(rule, 1)
+	fn := c.Func("consensus/net", "UnMarshalConsensusVerifyMessage")
+	if !r.Anchor(fn != nil && len(fn.Params) == 1, rule, "net.UnMarshalConsensusVerifyMessage") {
+		return
+	}
+	n, bad := 0, ""
+	for _, b := range fn.Blocks {
+		for _, in := range b.Instrs {
+			st, ok := in.(*ssa.Store)
+			if !ok {
+				continue
+			}
+			if t, f := eng.FieldOf(st.Addr); f != "Id" || !strings.HasSuffix(t, "ConsensusVerifyMessage") {
+				continue
+			}
+			n++
+			digest := false
+			seen := map[ssa.Value]bool{}
+			var walk func(v ssa.Value, d int)
+			walk = func(v ssa.Value, d int) {
+				if v == nil || seen[v] || d > 8 {
+					return
+				}
+				seen[v] = true
+				if call, isC := v.(*ssa.Call); isC {
+					nm := eng.CallName(&call.Call)
+					if (strings.Contains(nm, "Sha256") || strings.Contains(nm, "Keccak") || strings.Contains(nm, "sha3")) && len(call.Call.Args) >= 1 && eng.ResolveLocal(call.Call.Args[0]) == ssa.Value(fn.Params[0]) {
+						digest = true
+						return
+					}
+				}
+				if i2, isI := v.(ssa.Instruction); isI {
+					var ops []*ssa.Value
+					for _, o := range i2.Operands(ops) {
+						walk(*o, d+1)
+					}
+				}
+			}
+			walk(st.Val, 0)
+			if !digest {
+				bad = eng.Desc(st.Val) + " at " + c.Pos(st.Pos())
+			}
+		}
+	}
+	r.Check(bad == "" && n >= 1, rule, "verify-message:id-is-digest", c.Pos(fn.Pos()), "Id is a hash of the received bytes", "the Id of a verify message is "+bad+", not a digest of the received bytes: it is built from fields the sender chooses, and the signer field is not authenticated when the id is used for de-duplication (CanAccept, futureMessages, processed) — a forged piece that names member A takes A's id first, and A's genuine share is then dropped as already processed, so one faulty member keeps a block with exactly threshold honest shares from finalising")
 }
